@@ -485,7 +485,7 @@ func (v *v40) next(o *oo40) *op40 {
 				}})
 				continue
 			}
-			cands = append(cands, cand{3, func() *op40 {
+			cands = append(cands, cand{5, func() *op40 {
 				slot, ltype, want, ok := v.pickSlot(of.fname, lo)
 				if !ok {
 					return nil
@@ -497,13 +497,17 @@ func (v *v40) next(o *oo40) *op40 {
 				return op
 			}})
 			if len(lf.slots) > 0 {
-				cands = append(cands, cand{3, func() *op40 {
+				cands = append(cands, cand{5, func() *op40 {
 					slots := make([]int, 0, len(lf.slots))
 					for s := range lf.slots {
 						slots = append(slots, s)
 					}
 					sort.Ints(slots)
-					return &op40{kind: kLocku, o: o, of: of, fname: of.fname, fh: of.fh, lo: lo, lf: lf, slot: pick(rng, slots), ltype: nfsv4.WRITE_LT, lseq: v.nx(lo.seq), stateid: lf.stateid, want: nfsv4.NFS4_OK}
+					op := &op40{kind: kLocku, o: o, of: of, fname: of.fname, fh: of.fh, lo: lo, lf: lf, slot: pick(rng, slots), ltype: nfsv4.WRITE_LT, lseq: v.nx(lo.seq), stateid: lf.stateid, want: nfsv4.NFS4_OK}
+					if rng.IntN(8) == 0 {
+						op.variant, op.want = "len0", nfsv4.NFS4ERR_INVAL
+					}
+					return op
 				}})
 			}
 		}
@@ -675,6 +679,9 @@ func (v *v40) apply(op *op40, res *nfsv4.Compound4res) bool {
 		}
 	case kLocku:
 		op.lo.seq = op.lseq
+		if op.want != nfsv4.NFS4_OK {
+			break
+		}
 		v.retire(op.fh, op.lf.stateid)
 		op.lf.stateid = sid
 		delete(op.lf.slots, op.slot)
@@ -756,6 +763,7 @@ func (v *v40) runTracked(op *op40, allowDup bool) {
 	v.logf("%s -> %s", op, statusName(st))
 	v.shape = append(v.shape, op.kind+":"+statusName(st))
 	if (ownerWraps || lockWraps) && st == op.want {
+		v.sit("seqid-wrap-40")
 		v.sit(fmt.Sprintf("seqid-wrap-40-to-%d", v.wrapTo))
 	}
 	if st != op.want {
@@ -973,7 +981,13 @@ func (v *v40) rejected(what string, h *retx, alt *op40, cacheSurvives bool, deta
 			map[string]any{"before": before, "after": after})
 	}
 	// The cache of the holder must have survived the probe.
-	if cacheSurvives && h.present && v.rng.IntN(3) == 0 {
+	if !cacheSurvives {
+		// The owner's transaction started: its previous cached reply is
+		// legitimately gone.
+		*h = retx{probed: what}
+		return
+	}
+	if h.present && v.rng.IntN(3) == 0 {
 		v.checkReplay(h, "after-"+what)
 	}
 }
@@ -1409,6 +1423,31 @@ func (v *v40) reboot(c *client40) {
 	if v.abort {
 		return
 	}
+	if v.rng.IntN(2) == 0 {
+		// An OPEN under the not yet confirmed client ID is refused
+		// without creating an open-owner.
+		other := c.owners[len(c.owners)-1]
+		if other == o {
+			other = c.owners[0]
+		}
+		if other != o {
+			early := &op40{kind: kOpen, o: other, fname: "f1", access: nfsv4.OPEN4_SHARE_ACCESS_READ, seq: v.seq0(), clientID: &newID}
+			pe, ok := v.send(v.build(early), "OPEN with unconfirmed client ID")
+			if !ok {
+				return
+			}
+			v.dups++
+			mid := v.fingerprint()
+			if v.abort {
+				return
+			}
+			v.sit("open-with-unconfirmed-clientid-40")
+			if pe.res.Status == nfsv4.NFS4_OK || mid != before {
+				v.violate("C19 refused-request-side-effect v=4.0 what=unconfirmed-clientid op=OPEN status="+statusName(pe.res.Status),
+					"OPEN under a client ID that was not confirmed yet was executed or changed state", map[string]any{"before": before, "after": mid})
+			}
+		}
+	}
 	first, ok := v.send(confirm, "SETCLIENTID_CONFIRM (restart, old record busy)")
 	if !ok {
 		return
@@ -1587,12 +1626,15 @@ func (v *v40) checkRefused(o *oo40) {
 		)
 	}
 	b := pick(v.rng, bases)
+	if usedLO != nil && v.rng.IntN(3) == 0 {
+		b = bases[len(bases)-1-v.rng.IntN(2)] // LOCK or LOCKU with the lock state ID
+	}
 	alt := *b.op
 	// inTx: the owner's transaction starts before the request is
 	// refused, which legitimately drops the owner's previous cached
 	// reply (the client acknowledged it by using the next seqid).
 	inTx := true
-	variants := []string{"future-stateid", "no-filehandle", "other-file", "anonymous-stateid", "stale-stateid", "unknown-stateid", "stale-clientid"}
+	variants := []string{"future-stateid", "no-filehandle", "other-file", "anonymous-stateid", "special-stateid", "stale-stateid", "unknown-stateid", "stale-clientid"}
 	if usedLO != nil && !b.lock {
 		variants = append(variants, "lock-owner-already-on-file")
 	}
@@ -1631,6 +1673,16 @@ func (v *v40) checkRefused(o *oo40) {
 		}
 	case "anonymous-stateid":
 		alt.stateid, inTx = nfsv4.Stateid4{}, false
+	case "special-stateid":
+		// READ bypass state ID, or a malformed special one.
+		alt.stateid = nfsv4.Stateid4{Seqid: 0xffffffff, Other: [12]byte{0xff, 0xff, 0xff, 0xff, 0xff, 0xff, 0xff, 0xff, 0xff, 0xff, 0xff, 0xff}}
+		switch v.rng.IntN(3) {
+		case 0:
+			alt.stateid.Seqid = 5
+		case 1:
+			alt.stateid = nfsv4.Stateid4{Seqid: 3}
+		}
+		inTx = false
 	case "stale-stateid":
 		alt.stateid.Other[0] ^= 0x55 // state ID of "another server instance"
 		inTx = false
